@@ -789,7 +789,7 @@ class Analyzer:
             # event the real compiled package and the concrete reference evaluation disagree: that stands on its own
             rp["encoder_ok"] = True
             rp["text"] += " (found through a model whose abstracted function values differ from the machine's; the replay decides)"
-        if not rp["encoder_ok"] and abstracted and "fault prediction" not in rp["encoder_text"] and getattr(v, "tries", 0) < 3 \
+        if not rp["encoder_ok"] and abstracted and "fault prediction" not in rp["encoder_text"] and getattr(v, "tries", 0) < 8 \
                 and getattr(v, "query", None) is not None:
             # binary32 rounding is an uninterpreted function constrained by relative-error axioms (a model may round a float
             # sum differently from the machine, visible after cancellation) and library functions without an exact model are
